@@ -7,10 +7,12 @@ import (
 	"encoding/json"
 	"fmt"
 	"io"
+	"os"
 	"sort"
 	"strings"
 
 	"github.com/protobom/protobom/pkg/formats"
+	"github.com/protobom/protobom/pkg/reader"
 )
 
 // The `sniff` stream (C06): format detection with the real formats.Sniffer on one sniffer per
@@ -66,6 +68,32 @@ func sniffInputAt(b []byte, src, want string, start int) M {
 }
 
 // recordingSeeker logs reads (collapsed) and seeks on the stream handed to the sniffer.
+var devNull *os.File
+
+// forwardOnly is a stream that can be read and not rewound (a pipe, a socket)
+type forwardOnly struct{ r io.Reader }
+
+func (f *forwardOnly) Read(p []byte) (int, error) { return f.r.Read(p) }
+func (f *forwardOnly) Seek(int64, int) (int64, error) {
+	return 0, fmt.Errorf("illegal seek")
+}
+
+// sniffForwardOnly: detection on a stream that cannot be rewound still answers with exactly one of
+// a format and an error
+func sniffForwardOnly(b []byte) M {
+	// the library reports the failed rewind on standard output: not part of the harness's output
+	if devNull == nil {
+		devNull, _ = os.OpenFile(os.DevNull, os.O_WRONLY, 0)
+	}
+	if devNull != nil {
+		saved := os.Stdout
+		os.Stdout = devNull
+		defer func() { os.Stdout = saved }()
+	}
+	f, err := (&formats.Sniffer{}).SniffReader(&forwardOnly{bytes.NewReader(b)})
+	return M{"format": string(f), "err": err != nil}
+}
+
 type recordingSeeker struct {
 	r  *bytes.Reader
 	ev []any
@@ -337,6 +365,14 @@ func sniffGen(g *G, tier string) []M {
 			}
 			if len(inputs) > 0 {
 				ops = append(ops, M{"op": "sniffSeq", "inputs": inputs})
+				if g.Chance(0.3) {
+					// the same inputs through the reader: where nothing is detected, or nothing is registered
+					// for what is detected, the caller's stream is where it was
+					ops = append(ops, M{"op": "readerPos", "inputs": inputs})
+				}
+				if g.Chance(0.2) {
+					ops = append(ops, M{"op": "sniffForward", "inputs": inputs})
+				}
 			}
 		}
 	}
@@ -363,6 +399,44 @@ func ExecSniff(op M) (res any) {
 			return d
 		}
 		return "undecodable"
+	case "sniffForward":
+		out := []any{}
+		for _, i := range asList(op["inputs"]) {
+			im, ok := i.(M)
+			if !ok {
+				return "unknown-op"
+			}
+			b, err := base64.StdEncoding.DecodeString(asStr(im["b64"]))
+			if err != nil {
+				return "unknown-op"
+			}
+			out = append(out, sniffForwardOnly(b))
+		}
+		return out
+	case "readerPos":
+		out := []any{}
+		for _, i := range asList(op["inputs"]) {
+			im, ok := i.(M)
+			if !ok {
+				return "unknown-op"
+			}
+			b, err := base64.StdEncoding.DecodeString(asStr(im["b64"]))
+			if err != nil {
+				return "unknown-op"
+			}
+			f, serr := (&formats.Sniffer{}).SniffReader(bytes.NewReader(b))
+			parsable := serr == nil
+			if parsable {
+				if _, uerr := reader.GetFormatUnserializer(f); uerr != nil {
+					parsable = false
+				}
+			}
+			rs := bytes.NewReader(b)
+			d, perr := reader.New().ParseStream(rs)
+			pos, _ := rs.Seek(0, io.SeekCurrent)
+			out = append(out, M{"parsable": parsable, "err": perr != nil, "doc": d != nil, "pos": float64(pos), "len": float64(len(b))})
+		}
+		return out
 	case "sniffSeq":
 		sn := &formats.Sniffer{}
 		out := []any{}
@@ -409,6 +483,38 @@ func oracleSniff(op M, res any, exec func(M) any) []Finding {
 	add := func(f string, a ...any) { out = append(out, Finding{"C06", fmt.Sprintf(f, a...)}) }
 	if s, ok := res.(string); ok && strings.HasPrefix(s, "panic") {
 		add("format detection panicked: %s", s)
+		return out
+	}
+	if asStr(op["op"]) == "sniffForward" {
+		for k, r := range asList(res) {
+			rm, ok := r.(M)
+			if !ok || k >= len(asList(op["inputs"])) {
+				continue
+			}
+			src := asStr(asList(op["inputs"])[k].(M)["src"])
+			switch f, e := asStr(rm["format"]), rm["err"] == true; {
+			case f != "" && e:
+				add("detection on a stream that cannot be rewound (%s) returns both a format (%s) and an error", src, f)
+			case f == "" && !e:
+				add("detection on a stream that cannot be rewound (%s) returns neither a format nor an error", src)
+			}
+		}
+		return out
+	}
+	if asStr(op["op"]) == "readerPos" {
+		for k, r := range asList(res) {
+			rm, ok := r.(M)
+			if !ok || rm["parsable"] == true || k >= len(asList(op["inputs"])) {
+				continue
+			}
+			src := asStr(asList(op["inputs"])[k].(M)["src"])
+			if rm["err"] != true || rm["doc"] == true {
+				add("ParseStream of input no parser is found for (%s) returns no error, or a document", src)
+			}
+			if asInt(rm["pos"]) != 0 {
+				add("ParseStream of input no parser is found for (%s) leaves the caller's stream at offset %d of %d: whoever reads it next does not see the document", src, asInt(rm["pos"]), asInt(rm["len"]))
+			}
+		}
 		return out
 	}
 	if asStr(op["op"]) != "sniffSeq" {
@@ -496,6 +602,7 @@ var SniffStream = &Stream{
 	},
 	OpProps: func(op M) []string { return []string{"C06"} },
 	Reps:    1,
+	NoModel: func(op M) bool { return asStr(op["op"]) == "readerPos" || asStr(op["op"]) == "sniffForward" },
 }
 
 func asInt0(v any) int64 {
